@@ -308,6 +308,10 @@ def count_rules(repo):
             out.append(violation("R-SIB", fi, role, "arm scatters on column %s" % other, arm))
         elif miss and any(t.startswith("y = torch.zeros(") and size not in t for t in txt):
             out.append(violation("R-SIB", fi, role, "arm allocates %s" % [t for t in txt if t.startswith("y = torch.zeros(")][0], arm))
+        elif miss and any(isinstance(c_, ast.Call) and dotted(c_.func) in ("torch.bincount", "numpy.bincount") and
+                          not any(k_.arg == "minlength" for k_ in c_.keywords) for s_ in arm.body for c_ in ast.walk(s_)):
+            out.append(named("R-SIB", fi, role, "the arm counts with bincount(..) without `minlength`: the vector is as long as the largest OBSERVED index + 1, "
+                             "not %s - shorter than the declared shape whenever the last rows / columns are empty" % size, arm))
         elif miss:
             out.append(unrecognised("R-SIB", fi, role, "arm is %s" % txt, arm))
         else:
